@@ -25,7 +25,9 @@ SPECIAL = [
     '$HOME', '`cmd`', 'tab\there', '  indented', 'trailing  ', '2024-02-30',
     '99/99/9999', '3.14.15', '12-25-2021 10:11:12', 'Jan 5, 2021',
     '5 March 2020 09:00', '0001-01-01', '2021-06-07T08:09:10Z', '#hash',
-    '\\d+', '\\n', '127.0.0.1', 'user@example.com', 'C:\\Users\\x']
+    '\\d+', '\\n', '127.0.0.1', 'user@example.com', 'C:\\Users\\x',
+    # valid UTF-8 that encoding sniffers take for something else
+    '~{1!~} caf\u00e9', '+AGE-+AGI- d\u00e9j\u00e0', '\ufeffBOM inside']
 # extra (ignored) arguments on the command line: they end up, quoted, in the
 # command string that gentest embeds in the generated script
 CMD_ARGS = ['plain', 'two words', "it's", 'say "hi"', 'C:\\Users\\x', '\\N{x}',
@@ -57,7 +59,12 @@ def out_file(draw, i):
     if kind == 'text':
         name = draw(st.sampled_from(['out%d.txt' % i, 'result%d.csv' % i,
                                      'report %d.txt' % i, 'Data%d.json' % i,
-                                     'STDOUT' if i == 0 else 'x%d.md' % i]))
+                                     'STDOUT' if i == 0 else 'x%d.md' % i,
+                                     # names that differ only in characters
+                                     # a Python identifier cannot hold
+                                     draw(st.sampled_from(
+                                         ['rep-1.txt', 'rep_1.txt',
+                                          'rep 1.txt', 'rep.1.txt']))]))
         f = {'name': name, 'kind': 'text',
              'lines': draw(text_strategy()),
              'final_newline': draw(st.booleans())}
@@ -73,7 +80,19 @@ def out_file(draw, i):
                                  'data%d.dat' % i]))
     head = b'\x89PNG\r\n\x1a\n' if name.endswith('.png') else b''
     body = draw(st.binary(min_size=1, max_size=40))
-    return {'name': name, 'kind': 'binary', 'hex': (head + body).hex()}
+    f = {'name': name, 'kind': 'binary', 'hex': (head + body).hex()}
+    if draw(st.integers(0, 5)) == 0:
+        # a large file whose size is a whole number of I/O blocks
+        f['pad_to'] = draw(st.sampled_from([4096, 8192, 16384, 65536]))
+    return f
+
+
+def file_bytes(fl):
+    """All the bytes of a binary output file."""
+    data = bytes.fromhex(fl['hex'])
+    pad = fl.get('pad_to') or 0
+    return data + bytes((i * 7 + 1) % 251 for i in range(max(
+        0, pad - len(data))))
 
 
 # where the output files go and how gentest is told about them; the
@@ -145,6 +164,8 @@ def valid_case(case):
             else:
                 if not bytes.fromhex(f['hex']):
                     return False
+                if f.get('pad_to') not in (None, 4096, 8192, 16384, 65536):
+                    return False
         return (case['exit'] in (0, 1, 2, 3)
                 and case['how'] in HOWS
                 and all(isinstance(a, str) and a in CMD_ARGS
@@ -207,6 +228,10 @@ class Workdir(object):
                 os.makedirs(os.path.dirname(p), exist_ok=True)
                 with open(p, 'wb') as f:
                     f.write(data)
+                if len(case['stdout']) % 2 == 0:
+                    # an old file whose status changed later than its
+                    # content (chmod, mv, extraction from an archive)
+                    os.utime(p, (1500000000, 1500000000))
         if case.get('old_test'):
             with open(os.path.join(self.w, 'test_x.py'), 'w') as f:
                 f.write('# an older generated test\n')
@@ -236,7 +261,7 @@ class Workdir(object):
                                 fl.get('final_newline', True)))
         else:
             with open(p, 'wb') as f:
-                f.write(bytes.fromhex(fl['hex']))
+                f.write(file_bytes(fl))
 
     def out_name(self, fl):
         return os.path.join(self.outdir, fl['name']) if self.outdir \
